@@ -53,7 +53,7 @@ func (f *clock) Exec(r *hx.Run, op []string) string {
 		return "bad-op"
 	}
 	if f.w == nil {
-		f.w = newNWorld()
+		f.w = newNWorld(7)
 		f.w.setupChains()
 	}
 	eth.VerifAcceptSeal = true
